@@ -94,7 +94,7 @@ def r12_1(ctx):
     ctx.require(upd, "commit_to_db: UPDATE mailboxes not found")
     sql = _sql_of(upd[0])
     m = re.match(r"(?i)update mailboxes set (.*) where (.*)$", sql)
-    ctx.require(m, "commit_to_db: cannot tokenize the UPDATE statement")
+    ctx.require(m, "commit_to_db: cannot tokenize the UPDATE statement", anchor=True)
     cols = [x.split("=")[0].strip() for x in m.group(1).split(",")] + [x.split("=")[0].strip() for x in re.split(r"(?i)\band\b", m.group(2))]
     vals = _tuple_of(cd, upd[0].args[1]) if len(upd[0].args) > 1 else None
     ctx.require(vals is not None, "commit_to_db: bound values tuple not found")
@@ -136,7 +136,7 @@ def r12_1(ctx):
     ctx.require(ins, "_restore_from_db: INSERT INTO mailboxes not found")
     isql = _sql_of(ins[0])
     m = re.match(r"(?i)insert into mailboxes \((.*?)\) values \((.*?)\)", isql)
-    ctx.require(m, "cannot tokenize INSERT INTO mailboxes")
+    ctx.require(m, "cannot tokenize INSERT INTO mailboxes", anchor=True)
     icols = [x.strip() for x in m.group(1).split(",")]
     ivals = [x.strip() for x in m.group(2).split(",")]
     bound = [c for c, v in zip(icols, ivals) if v == "?"]
@@ -332,10 +332,13 @@ def r12_5(ctx):
 
 
 def run(ctx):
-    r12_5(ctx)
-    written, read = r12_1(ctx)
-    r12_2(ctx)
-    r12_3(ctx, written, read)
-    r12_4(ctx)
+    ctx.do(r12_5)
+    res = ctx.do(r12_1)
+    if res is None:
+        return
+    written, read = res
+    ctx.do(r12_2)
+    ctx.do(r12_3, written, read)
+    ctx.do(r12_4)
     for k, v in PERSISTENT_FIELDS.items():
         ctx.trust(f"frozen persistent field: {k} - {v}")
